@@ -43,6 +43,7 @@ fn entity(h: &Hist) -> EntitySpec {
         headers: h.headers.clone(),
         plan: vec![PStep::Chunk(40)],
         faults: vec![],
+        tail: vec![],
     }
 }
 
